@@ -595,7 +595,8 @@ func TestVerif_C11(t *testing.T) {
 			}
 			got = append(got, c11Block{ip: [4]byte{ip4[0], ip4[1], ip4[2], ip4[3]}, p: ones})
 		}
-		extractCases = append(extractCases, fmt.Sprintf("(%s, %s, %s)", c11CoqBlocks(blocks), coqBool(err == nil && !pan), c11CoqBlocks(got)))
+		// the model gets the blocks AS REQUESTED (any address of the block) and canonicalises them itself
+		extractCases = append(extractCases, fmt.Sprintf("(%s, %s, %s)", c11CoqBlocks(raw), coqBool(err == nil && !pan), c11CoqBlocks(got)))
 		same := err == nil && !pan && len(got) == len(blocks)
 		for i := range blocks {
 			if same && got[i] != blocks[i] {
@@ -623,7 +624,7 @@ func TestVerif_C11(t *testing.T) {
 			}
 			res.eval(fmt.Sprintf("verify|%v|%s|%v", blocks, p.addr, ok), inside)
 			res.bump("peer:" + p.kind)
-			verifyCases = append(verifyCases, fmt.Sprintf("(%s, %s, %s)", c11CoqBlocks(blocks), p.coq(), coqBool(ok)))
+			verifyCases = append(verifyCases, fmt.Sprintf("(%s, %s, %s)", c11CoqBlocks(raw), p.coq(), coqBool(ok)))
 			vidx = append(vidx, fmt.Sprintf("blocks=%v peer=%s obs=%v", blocks, p.addr, ok))
 			if pan {
 				res.hit(verifHit{Key: "C11:panic:verify", Oracle: "panic", What: "VerifyIPRestrictedX509CertIP panicked", Case: fmt.Sprint(blocks, p.addr)})
@@ -746,10 +747,10 @@ func TestVerif_C11(t *testing.T) {
 	sb.WriteString(coqCaseHeader)
 	sb.WriteString("From KM Require Import Base.Cases Model.IPExt.\nOpen Scope N_scope.\n")
 	sb.WriteString("Definition verify_cases : list (list netblock * peer * bool) := [\n " + strings.Join(verifyCases, ";\n ") + "].\n")
-	sb.WriteString("Definition c11_verify_mismatches := Eval vm_compute in mismatches (fun c : list netblock * peer * bool => let '(bl, p, o) := c in negb (Bool.eqb (verify_ip (ext_of bl) p) o)) verify_cases.\nPrint c11_verify_mismatches.\n")
-	sb.WriteString("Definition c11_wf_mismatches := Eval vm_compute in mismatches (fun c : list netblock * peer * bool => let '(bl, p, o) := c in negb (forallb wf_block bl)) verify_cases.\nPrint c11_wf_mismatches.\n")
+	sb.WriteString("Definition c11_verify_mismatches := Eval vm_compute in mismatches (fun c : list netblock * peer * bool => let '(bl, p, o) := c in negb (Bool.eqb (verify_ip (rc_ext (mint_request [] bl)) p) o)) verify_cases.\nPrint c11_verify_mismatches.\n")
+	sb.WriteString("Definition c11_wf_mismatches := Eval vm_compute in mismatches (fun c : list netblock * peer * bool => let '(bl, p, o) := c in negb (forallb cidr_ok bl && forallb wf_block (map canon bl))) verify_cases.\nPrint c11_wf_mismatches.\n")
 	sb.WriteString("Definition extract_cases : list (list netblock * bool * list netblock) := [\n " + strings.Join(extractCases, ";\n ") + "].\n")
-	sb.WriteString("Definition c11_extract_mismatches := Eval vm_compute in mismatches (fun c : list netblock * bool * list netblock => let '(bl, ok, got) := c in match extract (ext_of bl) with Some m => negb (ok && (Nat.eqb (length m) (length got)) && forallb (fun xy => nb_eqb (fst xy) (snd xy)) (combine m got)) | None => ok end) extract_cases.\nPrint c11_extract_mismatches.\n")
+	sb.WriteString("Definition c11_extract_mismatches := Eval vm_compute in mismatches (fun c : list netblock * bool * list netblock => let '(bl, ok, got) := c in match extract (rc_ext (mint_request [] bl)) with Some m => negb (ok && (Nat.eqb (length m) (length got)) && forallb (fun xy => nb_eqb (fst xy) (snd xy)) (combine m got)) | None => ok end) extract_cases.\nPrint c11_extract_mismatches.\n")
 	sb.WriteString("Definition malformed_cases : list (list family * peer * bool) := [\n " + strings.Join(malformedCases, ";\n ") + "].\n")
 	sb.WriteString("Definition c11_malformed_mismatches := Eval vm_compute in mismatches (fun c : list family * peer * bool => let '(e, p, o) := c in negb (Bool.eqb (verify_ip e p) o)) malformed_cases.\nPrint c11_malformed_mismatches.\n")
 	sb.WriteString("(* refresh with a form: (identity, blocks, peer, form without the key, answered 200, identity and blocks of the returned certificate) *)\n")
